@@ -199,6 +199,13 @@ theorem version_trailing_zero (a : List Nat) : veq (a ++ [0]) a = true := by
   rw [version_eq_padded (a ++ [0]) a (a.length + 1) (by simp) (by simp)]
   simp [padTo]
 
+theorem veq_comm (a b : List Nat) : veq a b = veq b a := by
+  unfold veq
+  by_cases h : vkey a = vkey b
+  · simp [h]
+  · have h' : ¬ vkey b = vkey a := fun e => h e.symm
+    simp [h, h']
+
 /-- … and `<=`, `>`, `>=`, `!=` are derived from `<` and `==` the usual way. -/
 theorem version_ops (a b : List Nat) :
     vle a b = !vlt b a ∧ vge a b = !vlt a b ∧ vgt a b = vlt b a ∧ vne a b = !veq a b := by
@@ -208,16 +215,14 @@ theorem version_ops (a b : List Nat) :
     · have e : vkey a = vkey b := by simpa [veq] using h
       simp [vle, h, vlt, e, lexLt_irrefl]
     · have := (version_order.2.2.2 b a h)
-      have e : veq a b = false := by
-        simp only [veq] at this ⊢; rw [Bool.eq_false_iff] at this ⊢; intro q; exact this.1 (by simpa [eq_comm] using q)
+      have e : veq a b = false := by rw [veq_comm]; exact this.1
       simp [vle, h, this.2, e]
   · rcases version_order.2.2.1 b a with h | h | h
     · have := (version_order.2.2.2 b a h); simp [vge, vle, h, this.2]
     · have e : vkey b = vkey a := by simpa [veq] using h
       simp [vge, vle, h, vlt, e, lexLt_irrefl]
     · have := (version_order.2.2.2 a b h)
-      have e : veq b a = false := by
-        simp only [veq] at this ⊢; rw [Bool.eq_false_iff] at this ⊢; intro q; exact this.1 (by simpa [eq_comm] using q)
+      have e : veq b a = false := by rw [veq_comm]; exact this.1
       simp [vge, vle, h, this.2, e]
 
 /-! ### `key`, `marked_key`, `arn_split` -/
